@@ -210,7 +210,7 @@ def rand_case(draw, max_len):
     if nsegs / min(blks) > 600:
         blks = [b if b > 3 else 127 for b in blks]
     case = {"len": n, "blksizes": blks, "crc_req": draw(st.booleans()), "crc_srv": draw(st.booleans())}
-    if draw(st.booleans()):
+    if n <= 1500 and draw(st.booleans()):
         case["data"] = draw(st.binary(min_size=n, max_size=n))
     else:
         case["salt"] = draw(st.integers(0, 200))
